@@ -500,6 +500,30 @@ func (h *hist) exec(c *Ctx, t []string) (obs []string) {
 		}
 		h.wait()
 		return []string{"ok", r}
+	case "hcloseff": // hcloseff h cid len binding hasuser xUSER xBYTES : the client's first frame is dispatched after
+		// the last handle of its ufrag's packet conn was closed and BEFORE that conn's cleanup goroutine has run
+		// (both queue on the mux lock, handleConn first)
+		pc, ok := h.handles[atoi(t[1])]
+		cid := atoi(t[2])
+		fc, ok2 := h.conns[cid]
+		if !ok || !ok2 || h.ffDone[cid] {
+			return []string{"skip"}
+		}
+		h.ffDone[cid] = true
+		release := ice.VerifTCPMuxHold(h.mux)
+		fc.cliWrite(frame(atoi(t[3]), []byte(Unhex(t[7]))))
+		time.Sleep(3 * time.Millisecond) // handleConn has read the frame and waits for the lock
+		done := make(chan struct{})
+		go func() { defer close(done); _ = pc.Close() }()
+		time.Sleep(3 * time.Millisecond) // the closed conn's watcher waits for the lock behind it
+		release()
+		select {
+		case <-done:
+		case <-time.After(10 * time.Second):
+			return []string{"HANG"}
+		}
+		h.wait()
+		return []string{"ok", h.view(cid)}
 	case "expire": // expire xU is6 xIP
 		h.noteKey(Unhex(t[1]), t[2] == "1", Unhex(t[3]))
 		r := h.expire(Unhex(t[1]), t[2] == "1", Unhex(t[3]))
